@@ -357,8 +357,13 @@ class Lexer(object):
                 self.prev_token
             )
             is_division_allowed = (
-                check_token is not None and
-                check_token.type in TOKENS_THAT_IMPLY_DIVISON
+                check_token is not None and (
+                    check_token.type in TOKENS_THAT_IMPLY_DIVISON or (
+                        # a reserved word used as a property name
+                        # (IdentifierName, section 11.2.1) is an operand
+                        check_token.type in self.keywords and
+                        self.prev_token is not None and
+                        self.prev_token.type == 'PERIOD'))
             ) and (
                 self.token_stack[-1][0] is None or (
                     # if the token on the stack is the same, the
